@@ -13,6 +13,12 @@ body, the sub-invocations it launched (flat list `launched`, and per statement i
 the execution whose body called it inline (`parent`; only sync mode nests bodies in one thread), and how the
 execution ended.
 
+A node may declare two further keyword arguments of its call: `extra` (passed in the per-call parameters) and
+`shift` (passed to every member of its group through parallelize's common_args); the body adds the values it
+RECEIVES to its result and logs received vs declared.  Options: `decl` = "t" passes max_retries as a task-level
+option (explicit zeros included), "a" leaves it to the app-level configuration; `tbatch` of the case is passed
+as the task-level parallel_batch_size of every task.
+
 Node ids name ARGUMENT SETS: the generator may repeat a node (same id, same spec) inside one group or one
 body - the same call made twice.  The elements of a parallelized list are spelled in the three forms
 parallelize accepts (dict / tuple / Arguments), by position.
@@ -39,14 +45,18 @@ def make_exc(kind: int, arg: int) -> Exception:
     return cls() if arg == 0 else cls("e", arg)
 
 
+def key_of(c: dict) -> tuple:
+    return (c["mr"], c["rf"], c.get("decl", "t"))
+
+
 class Registry:
     def __init__(self) -> None:
         self.lock = threading.Lock()
         self.log: list[dict] = []
         self.counter: dict[str, int] = {}
-        self.plain: dict[tuple[int, int], object] = {}     # (mr, rf) -> Task
-        self.direct: dict[tuple[int, int], object] = {}    # (mr, rf) -> direct-task wrapper
-        self.dpar: dict[tuple[int, int], object] = {}      # (mr, rf) -> direct-task wrapper with parallel_func
+        self.plain: dict[tuple, object] = {}               # (mr, rf, decl) -> Task
+        self.direct: dict[tuple, object] = {}              # (mr, rf, decl) -> direct-task wrapper
+        self.dpar: dict[tuple, object] = {}                # (mr, rf, decl) -> direct-task wrapper with parallel_func
         self.task_of: dict[str, object] = {}               # function name -> Task (to find the running invocation)
         self.launched: list = []                           # invocation objects created by bodies
         self.tls = threading.local()                       # .cur = log index of the execution running in this thread
@@ -55,56 +65,64 @@ class Registry:
 REG: Registry | None = None
 
 
-def spell(task, j: int, member: dict):
-    """the j-th element of a parallelized list, in one of the accepted spellings"""
-    if task is None or j % 3 == 0:
-        return {"spec": member}
+def spell(task, j: int, member: dict, common: bool = False):
+    """the j-th element of a parallelized list, in one of the accepted spellings (dicts only next to common_args)"""
+    extra = member.get("extra")
+    if common or task is None or j % 3 == 0:
+        if task is None and not common and j % 2 == 1:
+            return (member,) if extra is None else (member, extra)
+        return {"spec": member} if extra is None else {"spec": member, "extra": extra}
     if j % 3 == 1:
-        return (member,)
-    return task.args(spec=member)
+        return (member,) if extra is None else (member, extra)
+    return task.args(spec=member) if extra is None else task.args(spec=member, extra=extra)
+
+
+def group_params(task, members: list, shift):
+    """(param_iter, common_args) of one parallelize call"""
+    common = shift is not None
+    return [spell(task, j, m, common) for j, m in enumerate(members)], ({"shift": shift} if common else None)
 
 
 def _run_stmt(reg: Registry, st: list, entry: dict) -> int:
     op = st[0]
     entry["stmts"].append({"op": op, "ids": [st[1]["id"]] if op in ("call", "fire", "direct") else [m["id"] for m in st[1]]})
-    if op in ("call", "fire"):
+    if op in ("call", "fire", "direct"):
         c = st[1]
-        inv = reg.plain[(c["mr"], c["rf"])](spec=c)
-        reg.launched.append(inv)
+        kw = {"spec": c} if c.get("extra") is None else {"spec": c, "extra": c["extra"]}
         entry["launched"].append(c["id"])
+        if op == "direct":
+            return reg.direct[key_of(c)](**kw)
+        inv = reg.plain[key_of(c)](**kw)
+        reg.launched.append(inv)
         if op == "fire":
             return 0                      # result never requested
         return inv.result
-    if op == "direct":
-        c = st[1]
-        entry["launched"].append(c["id"])
-        return reg.direct[(c["mr"], c["rf"])](spec=c)
+    members = st[1]
+    shift = st[2] if len(st) > 2 else None
+    c0 = members[0]
+    entry["launched"].extend(m["id"] for m in members)
     if op == "group":
-        members = st[1]
-        c0 = members[0]
-        task = reg.plain[(c0["mr"], c0["rf"])]
-        group = task.parallelize([spell(task, j, m) for j, m in enumerate(members)])
+        task = reg.plain[key_of(c0)]
+        params, common = group_params(task, members, shift)
+        group = task.parallelize(params, common) if common else task.parallelize(params)
         reg.launched.extend(group.invocations)
-        entry["launched"].extend(m["id"] for m in members)
         return sum(group.results)         # order-insensitive aggregation
     if op == "dpar":
-        members = st[1]
-        c0 = members[0]
-        entry["launched"].extend(m["id"] for m in members)
-        return reg.dpar[(c0["mr"], c0["rf"])](spec={"par": members})
+        return reg.dpar[key_of(c0)](spec={"par": members, "shift": shift})
     raise AssertionError(op)
 
 
-def _body(fname: str, spec: dict):
+def _body(fname: str, spec: dict, extra: int, shift: int):
     reg = REG
     assert reg is not None
     inv = reg.task_of[fname].invocation
     inv_id = str(inv.invocation_id)
     with reg.lock:
         k = reg.counter[inv_id] = reg.counter.get(inv_id, 0) + 1
-    entry = {"node": spec["id"], "inv": inv_id, "attempt": k, "retries_seen": inv.num_retries,
+    entry = {"node": spec.get("id", 0), "inv": inv_id, "attempt": k, "retries_seen": inv.num_retries,
              "launched": [], "stmts": [], "end": None, "mode": type(inv).__name__,
-             "parent": getattr(reg.tls, "cur", None)}
+             "parent": getattr(reg.tls, "cur", None),
+             "args": [extra, shift], "declared": [spec.get("extra") or 0, spec.get("shift") or 0]}
     with reg.lock:
         entry["idx"] = len(reg.log)
         reg.log.append(entry)
@@ -115,7 +133,7 @@ def _body(fname: str, spec: dict):
         act = script[k - 1] if k - 1 < len(script) else spec["dflt"]
         if act[0] == 1:
             raise make_exc(act[1], act[2])
-        total = spec["base"]
+        total = spec["base"] + extra + shift
         for st in spec["body"]:
             total = total + _run_stmt(reg, st, entry)
         if act[0] == 2:
@@ -130,22 +148,24 @@ def _body(fname: str, spec: dict):
 
 
 def _parallel_func(args: dict):
-    return [spell(None, 0, m) if j % 2 == 0 else (m,) for j, m in enumerate(args["spec"]["par"])]
+    members, shift = args["spec"]["par"], args["spec"].get("shift")
+    params, common = group_params(None, members, shift)
+    return (common, params) if common else params
 
 
 def _aggregate(results) -> int:
     return sum(results)
 
 
-def fname(flavour: str, mr: int, rf: int) -> str:
-    return f"c19_{flavour}_m{mr}_r{rf}"
+def fname(flavour: str, mr: int, rf: int, decl: str = "t") -> str:
+    return f"c19_{flavour}_m{mr}_r{rf}" + ("" if decl == "t" else "_a")
 
 
-def _define(flavour: str, mr: int, rf: int) -> None:
-    name = fname(flavour, mr, rf)
+def _define(flavour: str, mr: int, rf: int, decl: str) -> None:
+    name = fname(flavour, mr, rf, decl)
 
-    def f(spec):
-        return _body(name, spec)
+    def f(spec, extra=0, shift=0):
+        return _body(name, spec, extra, shift)
 
     f.__name__ = f.__qualname__ = name
     f.__module__ = __name__
@@ -155,26 +175,37 @@ def _define(flavour: str, mr: int, rf: int) -> None:
 for _fl in ("p", "d", "g"):
     for _m in MAXR:
         for _r in RETRY_FOR:
-            _define(_fl, _m, _r)
+            for _d in ("t", "a"):
+                _define(_fl, _m, _r, _d)
 
 
-def bind(app, reg: Registry, needed: set[tuple[str, int, int]]) -> None:
-    """Register on `app` the (flavour, max_retries, retry_for) functions a case uses."""
-    for fl, mr, rf in sorted(needed):
-        name = fname(fl, mr, rf)
+def bind(app, reg: Registry, needed: set[tuple], tbatch=None) -> dict:
+    """Register on `app` the (flavour, max_retries, retry_for, decl) functions a case uses.
+    decl 't': max_retries passed as a task-level option (also when 0); 'a': not passed (app-level value applies).
+    tbatch: task-level parallel_batch_size of every task (None = not passed).
+    Returns the effective [max_retries, parallel_batch_size] per function, as the Task objects report them."""
+    eff = {}
+    for fl, mr, rf, decl in sorted(needed):
+        name = fname(fl, mr, rf, decl)
         func = globals()[name]
-        opts: dict = {"max_retries": mr}
+        opts: dict = {}
+        if decl == "t":
+            opts["max_retries"] = mr
         if RETRY_FOR[rf] is not None:
             opts["retry_for"] = RETRY_FOR[rf]
+        if tbatch is not None:
+            opts["parallel_batch_size"] = tbatch
         if fl == "p":
             t = app.task(func, **opts)
-            reg.plain[(mr, rf)] = t
-            reg.task_of[name] = t
+            reg.plain[(mr, rf, decl)] = t
         elif fl == "d":
             w = app.direct_task(func, **opts)
-            reg.direct[(mr, rf)] = w
-            reg.task_of[name] = w.__pynenc_task__
+            reg.direct[(mr, rf, decl)] = w
+            t = w.__pynenc_task__
         else:
             w = app.direct_task(func, parallel_func=_parallel_func, aggregate_func=_aggregate, **opts)
-            reg.dpar[(mr, rf)] = w
-            reg.task_of[name] = w.__pynenc_task__
+            reg.dpar[(mr, rf, decl)] = w
+            t = w.__pynenc_task__
+        reg.task_of[name] = t
+        eff[name] = [t.conf.max_retries, t.conf.parallel_batch_size]
+    return eff
